@@ -350,6 +350,11 @@ Theorem C06_bad_request_rejected : forall p, consistent_axes (arrayspecs p) ->
 Proof. exact rejected_status_rejected. Qed.
 Print Assumptions C06_bad_request_rejected.
 
+(* the hypothesis in decidable form (evaluated on every generated request by the CLink cases of Corr/Run_C06.v) *)
+Theorem C06_consistent_axes_decidable : forall arrs, consistent_axesb arrs = true -> consistent_axes arrs.
+Proof. exact consistent_axesb_ok. Qed.
+Print Assumptions C06_consistent_axes_decidable.
+
 Example ex_consistent : consistent_axes (arrayspecs [ex_f; ex2_g]).
 Proof.
   intros sp1 sp2 k x y H1 H2 _ K1 K2. cbn in H1, H2.
